@@ -181,12 +181,23 @@ class ExcAnalysis:
                 return True
         if isinstance(v, (ast.Tuple, ast.List)) and not any(isinstance(x, ast.Starred) for x in v.elts):
             return True
+        # the lists the starred one is derived from (r = [float(x) for x in p[1:]] ; a, *rest = p ; rest = rest[:2]):
+        # a length test on any of them bounds the starred list
         src = set(names)
-        for nm in list(names):
-            if nm in fl.rd.names:
-                for d in fl.def_exprs(nm, nid):
-                    if d[0] == 'assign' and d[1] is not None:
-                        src |= {x.id for x in ast.walk(d[1]) if isinstance(x, ast.Name)}
+        todo = [(nm, nid) for nm in names]
+        seen_ = set()
+        for _round in range(4):
+            nxt = []
+            for nm, at in todo:
+                if nm not in fl.rd.names or (nm, at) in seen_:
+                    continue
+                seen_.add((nm, at))
+                for d in fl.def_exprs(nm, at):
+                    if d[0] in ('assign', 'unpack', 'for-unpack') and d[1] is not None:
+                        new_ = {x.id for x in ast.walk(d[1]) if isinstance(x, ast.Name)}
+                        src |= new_
+                        nxt += [(x, d[2]) for x in new_ if d[2] is not None]
+            todo = nxt
         if isinstance(v, ast.Call):
             return False        # f(*g(text)): nothing bounds the length
         for n in walk_no_nested(func.node):
